@@ -398,10 +398,12 @@ impl SqPackData {
     fn read_texture_file(&mut self, offset: u64, file_info: &FileInfo) -> Option<ByteBuffer> {
         let texture_file_info = file_info.texture_info.as_ref()?;
 
-        let mut data: Vec<u8> = Vec::with_capacity(file_info.file_size as usize);
+        // the sizes of the entry header are not trustworthy enough to reserve memory by
+        let mut data: Vec<u8> = Vec::new();
 
         // write the header if it exists
-        let mipmap_size = texture_file_info.lods[0].compressed_size;
+        let first_lod = texture_file_info.lods.first()?;
+        let mipmap_size = first_lod.compressed_size;
         if mipmap_size != 0 {
             let original_pos = self.file.stream_position().ok()?;
 
@@ -409,8 +411,15 @@ impl SqPackData {
                 .seek(SeekFrom::Start(offset + file_info.size as u64))
                 .ok()?;
 
-            let mut header = vec![0u8; texture_file_info.lods[0].compressed_offset as usize];
-            self.file.read_exact(&mut header).ok()?;
+            let header_size = first_lod.compressed_offset as usize;
+            let mut header = Vec::new();
+            (&self.file)
+                .take(header_size as u64)
+                .read_to_end(&mut header)
+                .ok()?;
+            if header.len() != header_size {
+                return None;
+            }
 
             data.append(&mut header);
 
